@@ -1334,7 +1334,7 @@ def conformance(prop, unit_names, pins_changed, labels_props):
             out.append(dict(oid='dbmode/process_state_init_tx/init.transaction_finished', msg='clause fails on the real binaries for a concrete history (bounded probe concurrent-state, %d histories)' % r[1],
                             where=REPO + '/src/state.rs:ProcessState::init', site=None, text=hits[0]['clause'], rendered=json.dumps(hits[:6], indent=1), inputs=[h['input'] for h in hits],
                             fn='process_state_init_tx', label='init.transaction_finished', props=['C16']))
-    if 'logs' in unit_names and prop in ('C10', 'C09', 'C18'):
+    if ('logs' in unit_names and prop in ('C10', 'C09', 'C18')) or ('gluebins' in unit_names and prop in ('C06', 'C09', 'C10')):
         r = _lost_reader_failures()
         if r and r[0]:
             hits = r[0]
@@ -1412,7 +1412,7 @@ def bounded(prop, unit_names, labels_props):
             extra.append(('ifcreate-args', _ifcreate_args_failures, 'gluebins/ifcreate_record/ifcreate.existing_path_is_error', lambda h: True))
         if prop in ('C04', 'C07'):
             extra.append(('temp-collision', _temp_collision_failures, 'dofiles/start_self_arguments/args.temp_beside_target', lambda h: True))
-        if prop in ('C10', 'C09', 'C18'):
+        if prop in ('C10', 'C09', 'C18', 'C06'):
             extra.append(('lost-reader', _lost_reader_failures, 'logs/rawlog_write_line/rawlog.a_failed_write_is_not_fatal', lambda h: True))
         if prop == 'C12':
             extra.append(('cycle-shapes', _cycle_shapes_failures, 'locks/check/cycles.check_detects_ancestor', lambda h: True))
